@@ -1468,6 +1468,120 @@ Qed.
 
 
 (* ------------------------------------------------------------------ *)
+(* adjacent text siblings                                               *)
+
+Definition nat_pres (F F' : list rt) : Prop := no_adjacent_text F = true -> no_adjacent_text F' = true.
+
+Lemma nat_t_unfold i d cs : no_adjacent_text_t (R i d cs) = negb (adjacent_text cs) && no_adjacent_text cs.
+Proof. reflexivity. Qed.
+
+Lemma adjacent_cons2 a b r : adjacent_text (a :: b :: r) = (is_text (rdata a) && is_text (rdata b)) || adjacent_text (b :: r).
+Proof. reflexivity. Qed.
+
+Lemma adjacent_snoc l x y :
+  adjacent_text (l ++ [x; y]) = adjacent_text (l ++ [x]) || (is_text (rdata x) && is_text (rdata y)).
+Proof.
+  induction l as [|a l IH]; [simpl; rewrite orb_false_r; reflexivity|].
+  destruct l as [|b l].
+  - simpl. rewrite !orb_false_r. reflexivity.
+  - change ((a :: b :: l) ++ [x; y]) with (a :: b :: (l ++ [x; y])). change ((a :: b :: l) ++ [x]) with (a :: b :: (l ++ [x])).
+    rewrite !adjacent_cons2. change (b :: l ++ [x; y]) with ((b :: l) ++ [x; y]). change (b :: l ++ [x]) with ((b :: l) ++ [x]).
+    rewrite IH, orb_assoc. reflexivity.
+Qed.
+
+Lemma adjacent_last_same l x x' : is_text (rdata x') = is_text (rdata x) -> adjacent_text (l ++ [x']) = adjacent_text (l ++ [x]).
+Proof.
+  intros E. induction l as [|a l IH]; [reflexivity|]. destruct l as [|b l].
+  - simpl. rewrite E. reflexivity.
+  - change ((a :: b :: l) ++ [x']) with (a :: b :: (l ++ [x'])). change ((a :: b :: l) ++ [x]) with (a :: b :: (l ++ [x])).
+    rewrite !adjacent_cons2. change (b :: l ++ [x']) with ((b :: l) ++ [x']). change (b :: l ++ [x]) with ((b :: l) ++ [x]).
+    rewrite IH. reflexivity.
+Qed.
+
+Lemma nat_app a b : no_adjacent_text (a ++ b) = no_adjacent_text a && no_adjacent_text b.
+Proof. unfold no_adjacent_text. apply forallb_app'. Qed.
+
+(* appending with merge never creates adjacent text *)
+Lemma nat_snoc_merge cs tn : adjacent_text cs = false -> no_adjacent_text cs = true -> no_adjacent_text_t tn = true ->
+  adjacent_text (snoc_merge cs tn) = false /\ no_adjacent_text (snoc_merge cs tn) = true.
+Proof.
+  intros H1 H2 H3. destruct (rev_cases cs) as [->|(l & x & ->)].
+  - simpl. rewrite H3. auto.
+  - rewrite snoc_merge_app. rewrite nat_app in H2. apply andb_prop in H2 as [H2 H4].
+    unfold no_adjacent_text in H4. cbn [forallb] in H4. rewrite andb_true_r in H4.
+    destruct x as [m dm mk]. destruct tn as [i di ncs].
+    assert (Gen : is_text dm && is_text di = false ->
+                  adjacent_text (l ++ [R m dm mk; R i di ncs]) = false /\ no_adjacent_text (l ++ [R m dm mk; R i di ncs]) = true).
+    { intros K. split.
+      - rewrite adjacent_snoc, H1. cbn [rdata orb]. exact K.
+      - rewrite nat_app, H2. unfold no_adjacent_text. cbn [forallb andb]. rewrite H4, H3. reflexivity. }
+    destruct dm; try (apply Gen; reflexivity). destruct di; try (apply Gen; cbn; rewrite ?andb_false_r; reflexivity).
+    split.
+    + rewrite (adjacent_last_same l (R m (DText content) mk)); [exact H1 | reflexivity].
+    + rewrite nat_app, H2. unfold no_adjacent_text. cbn [forallb andb]. rewrite andb_true_r.
+      rewrite nat_t_unfold in *. exact H3.
+Qed.
+
+Lemma find_nat x :
+  (forall t s, find_t x t = Some s -> no_adjacent_text_t t = true -> no_adjacent_text_t s = true) /\
+  (forall ts s, find_l x ts = Some s -> no_adjacent_text ts = true -> no_adjacent_text_t s = true).
+Proof.
+  apply rt_mut_ind.
+  - intros i d cs IH s. rewrite find_t_unfold. destruct (i =? x); [intros [= <-]; auto|].
+    intros H. rewrite nat_t_unfold. intros HL. apply andb_prop in HL as [_ HL]. eauto.
+  - discriminate.
+  - intros t ts IHt IHts s. rewrite find_l_cons. unfold no_adjacent_text. cbn [forallb]. intros H HL. apply andb_prop in HL as [H1 H2].
+    destruct (find_t x t) eqn:E; [injection H as <-; eauto | eauto].
+Qed.
+
+(* replacing a sub-tree by one whose root is not text *)
+Lemma adjacent_replace p new : is_text (rdata new) = false -> forall cs,
+  adjacent_text cs = false -> adjacent_text (replace_l p new cs) = false.
+Proof.
+  intros Hn.
+  assert (Hm : forall t, is_text (rdata (replace_t p new t)) = true -> is_text (rdata t) = true).
+  { intros [i d cs]. simpl. destruct (i =? p); [rewrite Hn; discriminate | auto]. }
+  induction cs as [|a cs IH]; [reflexivity|]. destruct cs as [|b cs]; [reflexivity|].
+  unfold replace_l in *. cbn [map] in *. rewrite !adjacent_cons2. intros H. apply orb_false_elim in H as [H1 H2].
+  rewrite (IH H2), orb_false_r.
+  destruct (is_text (rdata (replace_t p new a))) eqn:Ea; [|reflexivity].
+  destruct (is_text (rdata (replace_t p new b))) eqn:Eb; [|reflexivity].
+  rewrite (Hm _ Ea), (Hm _ Eb) in H1. discriminate.
+Qed.
+
+Lemma nat_replace p new : is_text (rdata new) = false -> no_adjacent_text_t new = true ->
+  (forall t, no_adjacent_text_t t = true -> no_adjacent_text_t (replace_t p new t) = true) /\
+  (forall ts, no_adjacent_text ts = true -> no_adjacent_text (replace_l p new ts) = true).
+Proof.
+  intros Hk Hn. apply rt_mut_ind.
+  - intros i d cs IH. simpl replace_t. destruct (i =? p); [auto|]. rewrite !nat_t_unfold.
+    intros HL. apply andb_prop in HL as [H1 H2]. fold (replace_l p new cs). rewrite (IH H2), andb_true_r.
+    apply negb_true_iff in H1. rewrite (adjacent_replace p new Hk cs H1). reflexivity.
+  - auto.
+  - intros t ts IHt IHts. unfold replace_l, no_adjacent_text. cbn [map forallb]. intros HL. apply andb_prop in HL as [H1 H2].
+    rewrite (IHt H1). exact (IHts H2).
+Qed.
+
+(* the forest after wbxml_tree_add_node: no adjacent text if there was none *)
+Lemma nat_add F1 tn F2 q ds cs : find_l q (F1 ++ F2) = Some (R q ds cs) -> is_text ds = false ->
+  nat_pres (F1 ++ tn :: F2) (replace_l q (R q ds (snoc_merge cs tn)) (F1 ++ F2)).
+Proof.
+  intros Hfind Hd H. rewrite nat_app in H. unfold no_adjacent_text at 2 in H. cbn [forallb] in H.
+  apply andb_prop in H as [H1 H]. apply andb_prop in H as [Ht H2].
+  assert (H12 : no_adjacent_text (F1 ++ F2) = true) by (rewrite nat_app, H1; exact H2).
+  pose proof (proj2 (find_nat q) _ _ Hfind H12) as Hs. rewrite nat_t_unfold in Hs. apply andb_prop in Hs as [Ha Hb].
+  apply negb_true_iff in Ha. destruct (nat_snoc_merge cs tn Ha Hb Ht) as [A B].
+  refine (proj2 (nat_replace q (R q ds (snoc_merge cs tn)) Hd _) _ H12). rewrite nat_t_unfold, A, B. reflexivity.
+Qed.
+
+Lemma nat_set_data F n sub d' : find_l n F = Some sub -> is_text d' = false ->
+  nat_pres F (replace_l n (R n d' (rkids sub)) F).
+Proof.
+  intros Hfind Hd H. pose proof (proj2 (find_nat n) _ _ Hfind H) as Hs. destruct sub as [i d cs]. cbn [rkids].
+  rewrite nat_t_unfold in Hs. refine (proj2 (nat_replace n (R n d' cs) Hd _) _ H). rewrite nat_t_unfold. exact Hs.
+Qed.
+
+(* ------------------------------------------------------------------ *)
 (* the invariant of a caller state and its preservation                 *)
 
 Definition roots (t : tstate) (det : list id) : list id := match root t with Some r => [r] | None => [] end ++ det.
@@ -1537,7 +1651,8 @@ Lemma add_new_inv fuel t det F p d :
   Inv t det F -> parent_ok (heap_of t) p = true -> (fuel_of t <= fuel)%nat ->
   exists t' r F', add_new fuel t p d = TOk (t', r) /\ Inv t' det F' /\ fresh t' = fresh t + 1 /\
      (forall n, r = Some n -> n = fresh t /\ In n (ids_l F') /\
-        (is_text d = false -> exists nn, heap_of t' n = Some nn /\ n_data nn = d)).
+        (is_text d = false -> exists nn, heap_of t' n = Some nn /\ n_data nn = d)) /\
+     nat_pres F F'.
 Proof.
   intros HI Hpar Hfuel. pose proof (inv_fresh_free _ _ _ HI) as Hfree. pose proof (inv_sizes _ _ _ HI) as [Hsz _].
   destruct HI as (HL & Hroots & Hb).
@@ -1561,7 +1676,7 @@ Proof.
       pose proof (length_le_size_l cs). unfold fuel_of in Hfuel. lia. }
     cbn [rid] in Hrun. rewrite Hrun.
     exists (with_heap t1 h'), (Some n), (replace_l q (R q (rdata sub) (snoc_merge (rkids sub) (R n d []))) (F ++ [])).
-    split; [reflexivity|]. split; [|split; [reflexivity|]].
+    split; [reflexivity|]. split; [|split; [reflexivity|split]].
     + split; [exact HL'|]. split.
       * rewrite map_rid_replace by reflexivity. rewrite app_nil_r. exact Hroots.
       * intros i Hi. apply Hincl in Hi. apply Hb1. exact Hi.
@@ -1569,16 +1684,19 @@ Proof.
       destruct (add_node_data fuel t1 (Some q) n _ (mkN d None None None None) Hrun) as (nn' & E1 & E2);
         [unfold t1, h1; cbn [heap_of]; apply upd_same | exact Hd |].
       exists nn'. split; [exact E1 | exact E2].
+    + intros H. destruct sub as [q' ds cs]. cbn [rid rdata rkids] in *. subst q'.
+      apply (nat_add F (R n d []) [] q ds cs Hfind'); [rewrite Hqr in Hqt; exact Hqt|].
+      rewrite nat_app, H. reflexivity.
   - (* as the root *)
     unfold add_node. cbn [heap_of t1]. unfold h1 at 1. rewrite get_upd_same. cbn [bind root t1].
     destruct (root t) as [r|] eqn:Er.
-    + exists (with_heap t1 (free_node (heap_of t1) n)), None, F. split; [reflexivity|]. split; [|split; [reflexivity | discriminate]].
+    + exists (with_heap t1 (free_node (heap_of t1) n)), None, F. split; [reflexivity|]. split; [|split; [reflexivity | split; [discriminate | intros H; exact H]]].
       split; [|split].
       * eapply Links_ext; [|exact HL]. intros i. cbn [heap_of with_heap t1]. unfold free_node, h1, upd.
         destruct (N.eqb_spec i n) as [->|_]; [symmetry; exact Hfree | reflexivity].
       * unfold roots in *. unfold t1. cbn [root with_heap]. rewrite Er in Hroots. exact Hroots.
       * intros i Hi. cbn [fresh with_heap t1]. specialize (Hb i Hi). fold n in Hb. lia.
-    + eexists _, (Some n), (R n d [] :: F). split; [reflexivity|]. split; [|split; [reflexivity|]].
+    + eexists _, (Some n), (R n d [] :: F). split; [reflexivity|]. split; [|split; [reflexivity|split]].
       * split; [|split].
         -- cbn [heap_of]. apply Links_perm with (F := F ++ [R n d []]); [apply Permutation_sym, Permutation_cons_append|].
            eapply Links_ext; [|exact HL1]. intros i. unfold upd. destruct (N.eqb_spec i n) as [->|_]; [|reflexivity].
@@ -1588,17 +1706,18 @@ Proof.
            apply in_or_app. apply in_app_or in Hi. tauto.
       * intros n' [= <-]. split; [reflexivity|]. split; [rewrite ids_l_cons; apply in_or_app; left; simpl; auto|].
         intros _. cbn [heap_of]. rewrite upd_same. eexists. split; reflexivity.
+      * intros H. unfold no_adjacent_text in *. cbn [forallb no_adjacent_text_t adjacent_text negb andb]. exact H.
 Qed.
 
 (* (B) a node's data is replaced by data that is not text *)
 Lemma set_data_inv t det F n r d' :
   Inv t det F -> heap_of t n = Some r -> is_text d' = false ->
-  exists F', Inv (with_heap t (upd (heap_of t) n (Some (set_data r d')))) det F'.
+  exists F', Inv (with_heap t (upd (heap_of t) n (Some (set_data r d')))) det F' /\ nat_pres F F'.
 Proof.
   intros (HL & Hroots & Hb) Hn Hd.
   assert (Hin : In n (ids_l F)) by (destruct HL as (_ & _ & HC & _); apply HC; rewrite Hn; discriminate).
   destruct (links_lookup _ _ _ HL Hin) as (sub & par & prev & nxt & Hfind & Hrid & _).
-  exists (replace_l n (R n d' (rkids sub)) F). split; [|split].
+  exists (replace_l n (R n d' (rkids sub)) F). split; [|exact (nat_set_data F n sub d' Hfind Hd)]. split; [|split].
   - cbn [heap_of with_heap]. eapply set_data_forest; eauto.
   - rewrite map_rid_replace by reflexivity. exact Hroots.
   - intros i Hi. cbn [fresh with_heap]. apply Hb.
@@ -1613,119 +1732,124 @@ Proof. intros H. exact H. Qed.
 Lemma CLinks_Inv c : CLinks c <-> exists F, Inv (ts c) (det c) F.
 Proof. unfold CLinks, Inv, roots, roots_of. split; intros (F & H); exists F; exact H. Qed.
 
+Lemma nat_pres_refl F : nat_pres F F.
+Proof. intros H; exact H. Qed.
+
+Lemma nat_pres_trans F G H : nat_pres F G -> nat_pres G H -> nat_pres F H.
+Proof. unfold nat_pres. auto. Qed.
+
 Lemma node_add_attrs_inv t det F n ats :
   Inv t det F -> heap_of t n <> None ->
-  exists h' F', node_add_attrs (heap_of t) n ats = TOk h' /\ Inv (with_heap t h') det F' /\
+  exists h' F', node_add_attrs (heap_of t) n ats = TOk h' /\ Inv (with_heap t h') det F' /\ nat_pres F F' /\
     (forall nn, heap_of t n = Some nn -> is_text (n_data nn) = false ->
        exists nn', h' n = Some nn' /\ is_text (n_data nn') = false).
 Proof.
   intros HI Hn. unfold node_add_attrs. destruct (heap_of t n) as [nn|] eqn:E; [|congruence].
   rewrite (get_some _ _ _ E). cbn [bind]. destruct (n_data nn) as [tg old| | | |] eqn:Ed.
-  - destruct (set_data_inv t det F n nn (DElt tg (old ++ ats)) HI E eq_refl) as (F' & HI').
-    eexists _, F'. split; [reflexivity|]. split; [exact HI'|]. intros nn0 [= <-] _. rewrite upd_same. eexists. split; reflexivity.
-  - eexists _, F. split; [reflexivity|]. split; [destruct t; exact HI|]. intros nn0 [= <-] H. rewrite Ed in H. discriminate.
-  - eexists _, F. split; [reflexivity|]. split; [destruct t; exact HI|]. intros nn0 [= <-] H. exists nn. rewrite Ed. auto.
-  - eexists _, F. split; [reflexivity|]. split; [destruct t; exact HI|]. intros nn0 [= <-] H. exists nn. rewrite Ed. auto.
-  - eexists _, F. split; [reflexivity|]. split; [destruct t; exact HI|]. intros nn0 [= <-] H. exists nn. rewrite Ed. auto.
+  - destruct (set_data_inv t det F n nn (DElt tg (old ++ ats)) HI E eq_refl) as (F' & HI' & HP).
+    eexists _, F'. split; [reflexivity|]. split; [exact HI'|]. split; [exact HP|].
+    intros nn0 [= <-] _. rewrite upd_same. eexists. split; reflexivity.
+  - eexists _, F. split; [reflexivity|]. split; [destruct t; exact HI|]. split; [apply nat_pres_refl|].
+    intros nn0 [= <-] H. rewrite Ed in H. discriminate.
+  - eexists _, F. split; [reflexivity|]. split; [destruct t; exact HI|]. split; [apply nat_pres_refl|].
+    intros nn0 [= <-] H. exists nn. rewrite Ed. auto.
+  - eexists _, F. split; [reflexivity|]. split; [destruct t; exact HI|]. split; [apply nat_pres_refl|].
+    intros nn0 [= <-] H. exists nn. rewrite Ed. auto.
+  - eexists _, F. split; [reflexivity|]. split; [destruct t; exact HI|]. split; [apply nat_pres_refl|].
+    intros nn0 [= <-] H. exists nn. rewrite Ed. auto.
 Qed.
 
-Lemma with_heap_id t : with_heap t (heap_of t) = t.
-Proof. destruct t; reflexivity. Qed.
-
-(* every add function of the API: result state satisfies the invariant; the allocator moved by at most 2 *)
-Definition add_ok (t : tstate) (det : list id) (res : tres (tstate * option id)) : Prop :=
-  exists t' r F', res = TOk (t', r) /\ Inv t' det F' /\ (fuel_of t' <= S (S (fuel_of t)))%nat.
+(* every add function of the API: the result state satisfies the invariant, the allocator moved by at most 2,
+   no adjacent text siblings appear *)
+Definition add_ok (t : tstate) (det : list id) (F : list rt) (res : tres (tstate * option id)) : Prop :=
+  exists t' r F', res = TOk (t', r) /\ Inv t' det F' /\ (fuel_of t' <= S (S (fuel_of t)))%nat /\ nat_pres F F'.
 
 Lemma fuel_of_succ t t' : fresh t' = fresh t + 1 -> fuel_of t' = S (fuel_of t).
 Proof. unfold fuel_of. intros ->. rewrite N.add_1_r, Nnat.N2Nat.inj_succ. reflexivity. Qed.
 
 Lemma add_elt_with_attrs_ok fuel t det F p tag ats :
   Inv t det F -> parent_ok (heap_of t) p = true -> (fuel_of t <= fuel)%nat ->
-  add_ok t det (add_elt_with_attrs fuel t p tag ats).
+  add_ok t det F (add_elt_with_attrs fuel t p tag ats).
 Proof.
   intros HI Hp Hf. unfold add_elt_with_attrs, add_elt.
-  destruct (add_new_inv fuel t det F p (DElt tag []) HI Hp Hf) as (t1 & r & F1 & Hrun & HI1 & Hfr & Hr).
+  destruct (add_new_inv fuel t det F p (DElt tag []) HI Hp Hf) as (t1 & r & F1 & Hrun & HI1 & Hfr & Hr & HP1).
   rewrite Hrun. cbn [bind]. destruct r as [n|].
   - destruct (Hr n eq_refl) as (_ & _ & Hd). destruct (Hd eq_refl) as (nn & Hn & _).
-    destruct (node_add_attrs_inv t1 det F1 n ats HI1) as (h' & F' & Hrun' & HI' & Hk); [rewrite Hn; discriminate|].
+    destruct (node_add_attrs_inv t1 det F1 n ats HI1) as (h' & F' & Hrun' & HI' & HP' & Hk); [rewrite Hn; discriminate|].
     rewrite Hrun'. cbn [bind]. exists (with_heap t1 h'), (Some n), F'. split; [reflexivity|]. split; [exact HI'|].
+    split; [|exact (nat_pres_trans _ _ _ HP1 HP')].
     unfold fuel_of in *; cbn [fresh with_heap]; rewrite Hfr, N.add_1_r, Nnat.N2Nat.inj_succ; lia.
-  - exists t1, None, F1. split; [reflexivity|]. split; [exact HI1|]. rewrite (fuel_of_succ _ _ Hfr); lia.
-Qed.
-
-
-Lemma inv_alloc t det F n : Inv t det F -> In n (ids_l F) -> exists nn, heap_of t n = Some nn.
-Proof.
-  intros ((HF & _) & _) Hin. unfold ids_l in Hin. apply in_flat_map in Hin as (tr & Ht & Hin).
-  rewrite Forall_forall in HF. pose proof (rep_alloc _ _ _ _ _ _ (HF tr Ht) Hin) as H.
-  destruct (heap_of t n); [eauto | congruence].
+  - exists t1, None, F1. split; [reflexivity|]. split; [exact HI1|]. split; [rewrite (fuel_of_succ _ _ Hfr); lia | exact HP1].
 Qed.
 
 Lemma add_new_ok fuel t det F p d :
   Inv t det F -> parent_ok (heap_of t) p = true -> (fuel_of t <= fuel)%nat ->
-  add_ok t det (add_new fuel t p d).
+  add_ok t det F (add_new fuel t p d).
 Proof.
   intros HI Hp Hf.
-  destruct (add_new_inv fuel t det F p d HI Hp Hf) as (t1 & r & F1 & Hrun & HI1 & Hfr & Hr).
-  exists t1, r, F1. split; [exact Hrun|]. split; [exact HI1|]. rewrite (fuel_of_succ _ _ Hfr); lia.
+  destruct (add_new_inv fuel t det F p d HI Hp Hf) as (t1 & r & F1 & Hrun & HI1 & Hfr & Hr & HP1).
+  exists t1, r, F1. split; [exact Hrun|]. split; [exact HI1|]. split; [rewrite (fuel_of_succ _ _ Hfr); lia | exact HP1].
 Qed.
 
 Lemma parent_ok_of_data h n nn : h n = Some nn -> is_text (n_data nn) = false -> parent_ok h (Some n) = true.
 Proof. intros H1 H2. unfold parent_ok. rewrite H1, H2. reflexivity. Qed.
 
-
 Lemma add_xml_full_ok fuel l t det F p name kvs text :
   Inv t det F -> parent_ok (heap_of t) p = true -> (S (fuel_of t) <= fuel)%nat ->
-  add_ok t det (add_xml_elt_with_attrs_and_text fuel l t p name kvs text).
+  add_ok t det F (add_xml_elt_with_attrs_and_text fuel l t p name kvs text).
 Proof.
   intros HI Hp Hf. unfold add_xml_elt_with_attrs_and_text, add_xml_elt_with_attrs, add_xml_elt.
   destruct (resolve_xml_elt l name) as [cp tag].
   set (t0 := mkT (heap_of t) (root t) cp (fresh t)).
   assert (HI0 : Inv t0 det F) by exact HI.
-  destruct (add_new_inv fuel t0 det F p (DElt tag []) HI0 Hp) as (t1 & r & F1 & Hrun & HI1 & Hfr & Hr);
+  destruct (add_new_inv fuel t0 det F p (DElt tag []) HI0 Hp) as (t1 & r & F1 & Hrun & HI1 & Hfr & Hr & HP1);
     [unfold fuel_of in *; cbn [fresh t0]; lia|].
   rewrite Hrun. cbn [bind]. destruct r as [n|].
   2:{ cbn [bind]. exists t1, None, F1. split; [reflexivity|]. split; [exact HI1|].
-      rewrite (fuel_of_succ t0 t1 Hfr); unfold fuel_of; cbn [fresh t0]; lia. }
+      split; [rewrite (fuel_of_succ t0 t1 Hfr); unfold fuel_of; cbn [fresh t0]; lia | exact HP1]. }
   destruct (Hr n eq_refl) as (_ & Hin & Hd). destruct (Hd eq_refl) as (nn & Hn & Hdn).
   (* attributes *)
   assert (K : exists t2 F2 nn2, (match kvs with
                               | [] => TOk (t1, Some n)
                               | _ :: _ => do h <- node_add_xml_attrs l (heap_of t1) n kvs; TOk (with_heap t1 h, Some n)
                               end) = TOk (t2, Some n) /\ Inv t2 det F2 /\ fresh t2 = fresh t1 /\
-                             heap_of t2 n = Some nn2 /\ is_text (n_data nn2) = false).
+                             heap_of t2 n = Some nn2 /\ is_text (n_data nn2) = false /\ nat_pres F1 F2).
   { destruct kvs as [|kv kvs].
-    - exists t1, F1, nn. rewrite Hdn. auto.
+    - exists t1, F1, nn. rewrite Hdn. split; [reflexivity|]. split; [exact HI1|]. split; [reflexivity|]. split; [exact Hn|].
+      split; [reflexivity | apply nat_pres_refl].
     - unfold node_add_xml_attrs.
       destruct (node_add_attrs_inv t1 det F1 n (map (fun kv0 => resolve_xml_attr l (fst kv0) (snd kv0)) (kv :: kvs)) HI1)
-        as (h' & F' & Hrun' & HI' & Hk); [rewrite Hn; discriminate|].
+        as (h' & F' & Hrun' & HI' & HP' & Hk); [rewrite Hn; discriminate|].
       rewrite Hrun'. cbn [bind]. destruct (Hk nn Hn) as (nn' & E1 & E2); [rewrite Hdn; reflexivity|].
-      exists (with_heap t1 h'), F', nn'. auto. }
-  destruct K as (t2 & F2 & nn2 & Hrun2 & HI2 & Hfr2 & Hn2 & Hd2). rewrite Hrun2. cbn [bind].
+      exists (with_heap t1 h'), F', nn'. split; [reflexivity|]. split; [exact HI'|]. split; [reflexivity|]. split; [exact E1|].
+      split; [exact E2 | exact HP']. }
+  destruct K as (t2 & F2 & nn2 & Hrun2 & HI2 & Hfr2 & Hn2 & Hd2 & HP2). rewrite Hrun2. cbn [bind].
   assert (Hfu2 : fuel_of t2 = S (fuel_of t)).
   { unfold fuel_of. rewrite Hfr2, Hfr. cbn [fresh t0]. rewrite N.add_1_r, Nnat.N2Nat.inj_succ. reflexivity. }
+  pose proof (nat_pres_trans _ _ _ HP1 HP2) as HP12.
   destruct text as [|b text].
-  - exists t2, (Some n), F2. split; [reflexivity|]. split; [exact HI2|]. lia.
+  - exists t2, (Some n), F2. split; [reflexivity|]. split; [exact HI2|]. split; [lia | exact HP12].
   - unfold add_text.
-    destruct (add_new_inv fuel t2 det F2 (Some n) (DText (b :: text)) HI2 (parent_ok_of_data _ _ _ Hn2 Hd2)) as (t3 & r3 & F3 & Hrun3 & HI3 & Hfr3 & Hr3);
+    destruct (add_new_inv fuel t2 det F2 (Some n) (DText (b :: text)) HI2 (parent_ok_of_data _ _ _ Hn2 Hd2)) as (t3 & r3 & F3 & Hrun3 & HI3 & Hfr3 & Hr3 & HP3);
       [lia|].
     rewrite Hrun3. cbn [bind].
-    destruct r3 as [m|]; eexists t3, _, F3; (split; [reflexivity|]); (split; [exact HI3|]); rewrite (fuel_of_succ _ _ Hfr3); lia.
+    destruct r3 as [m|]; eexists t3, _, F3; (split; [reflexivity|]); (split; [exact HI3|]);
+      (split; [rewrite (fuel_of_succ _ _ Hfr3); lia | exact (nat_pres_trans _ _ _ HP12 HP3)]).
 Qed.
 
 Lemma add_tree_ok fuel t det F p lang :
   Inv t det F -> parent_ok (heap_of t) p = true -> (fuel_of t <= fuel)%nat ->
-  add_ok t det (add_tree fuel t p lang).
+  add_ok t det F (add_tree fuel t p lang).
 Proof.
   intros HI Hp Hf. unfold add_tree.
-  destruct (add_new_inv fuel t det F p (DTree 0) HI Hp Hf) as (t1 & r & F1 & Hrun & HI1 & Hfr & Hr).
+  destruct (add_new_inv fuel t det F p (DTree 0) HI Hp Hf) as (t1 & r & F1 & Hrun & HI1 & Hfr & Hr & HP1).
   rewrite Hrun. cbn [bind]. destruct r as [n|].
   - destruct (Hr n eq_refl) as (_ & _ & Hd). destruct (Hd eq_refl) as (nn & Hn & _).
     rewrite (get_some _ _ _ Hn). cbn [bind].
-    destruct (set_data_inv t1 det F1 n nn (DTree lang) HI1 Hn eq_refl) as (F' & HI').
-    eexists _, (Some n), F'. split; [reflexivity|]. split; [exact HI'|].
+    destruct (set_data_inv t1 det F1 n nn (DTree lang) HI1 Hn eq_refl) as (F' & HI' & HP').
+    eexists _, (Some n), F'. split; [reflexivity|]. split; [exact HI'|]. split; [|exact (nat_pres_trans _ _ _ HP1 HP')].
     unfold fuel_of in *. cbn [fresh with_heap]. rewrite Hfr, N.add_1_r, Nnat.N2Nat.inj_succ. lia.
-  - exists t1, None, F1. split; [reflexivity|]. split; [exact HI1|]. rewrite (fuel_of_succ _ _ Hfr). lia.
+  - exists t1, None, F1. split; [reflexivity|]. split; [exact HI1|]. split; [rewrite (fuel_of_succ _ _ Hfr); lia | exact HP1].
 Qed.
 
 Lemma roots_remove t det F1 tn F2 :
@@ -1762,28 +1886,32 @@ Proof.
     apply in_or_app. apply in_app_or in Hi. tauto.
 Qed.
 
-Theorem exec_links l c o : CLinks c -> exists c' b, exec l c o = TOk (c', b) /\ CLinks c'.
+Definition is_extract (o : op) : bool := match o with OpExtract _ => true | _ => false end.
+
+Theorem exec_inv l c o F : Inv (ts c) (det c) F ->
+  exists c' b F', exec l c o = TOk (c', b) /\ Inv (ts c') (det c') F' /\ (is_extract o = false -> nat_pres F F').
 Proof.
-  intros HC. pose proof HC as HC0. destruct c as [t det]. apply CLinks_Inv in HC as (F & HI).
-  change (Inv t det F) in HI.
-  assert (Hadd : forall res, add_ok t det res -> exists c' b, lift_add (mkC t det) res = TOk (c', b) /\ CLinks c').
-  { intros res (t' & r & F' & -> & HI' & _). unfold lift_add. cbn [bind TreeGraph.det].
-    destruct r; eexists _, _; (split; [reflexivity|]); apply CLinks_Inv; exists F'; exact HI'. }
-  assert (Hsame : exists c' b, TOk (mkC t det, false) = TOk (c', b) /\ CLinks c') by (eexists _, _; split; [reflexivity | exact HC0]).
-  destruct o as [p tag ats | p name kvs text | p text | p | p lang | n k v | n | p n | n]; cbn [exec ts TreeGraph.det].
-  - destruct (parent_ok (heap_of t) p) eqn:Hp; [|exact Hsame]. apply Hadd. eapply add_elt_with_attrs_ok; eauto.
-  - destruct (parent_ok (heap_of t) p) eqn:Hp; [|exact Hsame]. apply Hadd. eapply add_xml_full_ok; eauto.
-  - destruct (parent_ok (heap_of t) p) eqn:Hp; [|exact Hsame]. apply Hadd. unfold add_text. eapply add_new_ok; eauto.
-  - destruct (parent_ok (heap_of t) p) eqn:Hp; [|exact Hsame]. apply Hadd. unfold add_cdata. eapply add_new_ok; eauto.
-  - destruct (parent_ok (heap_of t) p) eqn:Hp; [|exact Hsame]. apply Hadd. eapply add_tree_ok; eauto.
+  intros HI. destruct c as [t det]. change (Inv t det F) in HI.
+  assert (Hadd : forall res, add_ok t det F res ->
+            exists c' b F', lift_add (mkC t det) res = TOk (c', b) /\ Inv (ts c') (TreeGraph.det c') F' /\ (false = false -> nat_pres F F')).
+  { intros res (t' & r & F' & -> & HI' & _ & HP). unfold lift_add. cbn [bind TreeGraph.det].
+    destruct r; eexists _, _, F'; (split; [reflexivity|]); (split; [exact HI' | intros _; exact HP]). }
+  assert (Hsame : forall b0, exists c' b F', TOk (mkC t det, false) = TOk (c', b) /\ Inv (ts c') (TreeGraph.det c') F' /\ (b0 = false -> nat_pres F F')).
+  { intros b0. eexists _, _, F. split; [reflexivity|]. split; [exact HI | intros _; apply nat_pres_refl]. }
+  destruct o as [p tag ats | p name kvs text | p text | p | p lang | n k v | n | p n | n]; cbn [exec ts TreeGraph.det is_extract].
+  - destruct (parent_ok (heap_of t) p) eqn:Hp; [|apply Hsame]. apply Hadd. eapply add_elt_with_attrs_ok; eauto.
+  - destruct (parent_ok (heap_of t) p) eqn:Hp; [|apply Hsame]. apply Hadd. eapply add_xml_full_ok; eauto.
+  - destruct (parent_ok (heap_of t) p) eqn:Hp; [|apply Hsame]. apply Hadd. unfold add_text. eapply add_new_ok; eauto.
+  - destruct (parent_ok (heap_of t) p) eqn:Hp; [|apply Hsame]. apply Hadd. unfold add_cdata. eapply add_new_ok; eauto.
+  - destruct (parent_ok (heap_of t) p) eqn:Hp; [|apply Hsame]. apply Hadd. eapply add_tree_ok; eauto.
   - (* attribute added to an element *)
-    destruct (heap_of t n) as [nn|] eqn:Hn; [|exact Hsame]. destruct (n_data nn) eqn:Hd; try exact Hsame.
+    destruct (heap_of t n) as [nn|] eqn:Hn; [|apply Hsame]. destruct (n_data nn) eqn:Hd; try apply Hsame.
     unfold node_add_xml_attrs.
-    destruct (node_add_attrs_inv t det F n (map (fun kv => resolve_xml_attr l (fst kv) (snd kv)) [(k, v)]) HI) as (h' & F' & Hrun & HI' & _);
+    destruct (node_add_attrs_inv t det F n (map (fun kv => resolve_xml_attr l (fst kv) (snd kv)) [(k, v)]) HI) as (h' & F' & Hrun & HI' & HP & _);
       [rewrite Hn; discriminate|].
-    rewrite Hrun. cbn [bind]. eexists _, _. split; [reflexivity|]. apply CLinks_Inv. exists F'. exact HI'.
+    rewrite Hrun. cbn [bind]. eexists _, _, F'. split; [reflexivity|]. split; [exact HI' | intros _; exact HP].
   - (* extraction *)
-    destruct (heap_of t n) as [nn|] eqn:Hn; [|exact Hsame]. destruct (mem n det) eqn:Hm; [exact Hsame|].
+    destruct (heap_of t n) as [nn|] eqn:Hn; [|apply Hsame]. destruct (mem n det) eqn:Hm; [apply Hsame|].
     apply mem_false in Hm. destruct HI as (HL & Hroots & Hb).
     assert (Hin : In n (ids_l F)) by (destruct HL as (_ & _ & HCv & _); apply HCv; rewrite Hn; discriminate).
     destruct (in_dec N.eq_dec n (map rid F)) as [Hr|Hr].
@@ -1791,16 +1919,16 @@ Proof.
       rewrite Hroots in Hr. unfold roots in Hr. apply in_app_or in Hr as [Hr|Hr]; [|contradiction].
       destruct (root t) as [r|] eqn:Er; [|simpl in Hr; contradiction]. simpl in Hr. destruct Hr as [->|Hr]; [|contradiction].
       destruct (extract_root_inv t det F n (conj HL (conj Hroots Hb)) Er) as (t' & F' & Hrun & HI').
-      rewrite Hrun. cbn [bind]. eexists _, _. split; [reflexivity|]. apply CLinks_Inv. exists F'. exact HI'.
+      rewrite Hrun. cbn [bind]. eexists _, _, F'. split; [reflexivity|]. split; [exact HI' | discriminate].
     + destruct (extract_forest t F n HL Hin Hr) as (h' & q & dq & ls & tx & rs & Hrun & Hfind & Hrid & HL' & Hincl).
-      rewrite Hrun. cbn [bind]. eexists _, _. split; [reflexivity|]. apply CLinks_Inv.
-      exists (replace_l q (R q dq (ls ++ rs)) F ++ [tx]). cbn [ts TreeGraph.det]. split; [exact HL'|]. split.
+      rewrite Hrun. cbn [bind]. eexists _, _, (replace_l q (R q dq (ls ++ rs)) F ++ [tx]). split; [reflexivity|].
+      split; [|discriminate]. cbn [ts TreeGraph.det]. split; [exact HL'|]. split.
       * rewrite map_app, map_rid_replace by reflexivity. cbn [map]. rewrite Hrid, Hroots. unfold roots. cbn [root].
         rewrite app_assoc. reflexivity.
       * intros i Hi. cbn [fresh]. apply Hb, Hincl, Hi.
   - (* re-insertion of a detached sub-tree *)
-    destruct (mem n det) eqn:Hm; cbn [andb]; [|exact Hsame]. destruct (parent_ok (heap_of t) p) eqn:Hp; cbn [andb]; [|exact Hsame].
-    match goal with |- context [negb ?b] => destruct b eqn:Hsub end; cbn [negb]; [exact Hsame|].
+    destruct (mem n det) eqn:Hm; cbn [andb]; [|apply Hsame]. destruct (parent_ok (heap_of t) p) eqn:Hp; cbn [andb]; [|apply Hsame].
+    match goal with |- context [negb ?b] => destruct b eqn:Hsub end; cbn [negb]; [apply Hsame|].
     apply mem_in in Hm. pose proof (inv_sizes _ _ _ HI) as [Hsz1 Hsz2]. destruct HI as (HL & Hroots & Hb).
     destruct (split_by_rid F n) as (F1 & tn & F2 & -> & Hrid); [rewrite Hroots; apply det_in_roots; exact Hm|]. subst n.
     pose proof HL as (HF & HN & HCv & HLf).
@@ -1828,7 +1956,8 @@ Proof.
           clear - Hi. in_norm. tauto. }
         rewrite EA, !app_length, ids_unfold in Hlen. cbn [length rkids] in *. rewrite <- (proj2 size_ids) in Hlen.
         pose proof (length_le_size_l cs). unfold fuel_of. lia. }
-      rewrite Hrun. eexists _, _. split; [reflexivity|]. apply CLinks_Inv. eexists. cbn [ts TreeGraph.det].
+      rewrite Hrun. eexists _, _, _. split; [reflexivity|]. cbn [ts TreeGraph.det].
+      split; [|intros _; exact (nat_add F1 tn F2 q ds cs Hfind Hqt)].
       split; [exact HL'|]. split.
       * rewrite map_rid_replace by reflexivity. cbn [root with_heap].
         rewrite <- ids_l_mid in HN. exact (roots_remove t det F1 tn F2 Hroots HN Hm).
@@ -1836,23 +1965,97 @@ Proof.
     + (* as the root *)
       destruct tn as [n d cs]. cbn [rid] in *. apply rep_t_unfold in Htn as [Hn Hcs].
       unfold add_node. rewrite (get_some _ _ _ Hn). cbn [bind].
-      destruct (root t) as [r|] eqn:Er; [exact Hsame|].
-      eexists _, _. split; [reflexivity|]. apply CLinks_Inv. exists (R n d cs :: F1 ++ F2). cbn [ts TreeGraph.det].
-      split; [|split].
-      * cbn [heap_of]. apply Links_perm with (F := F1 ++ R n d cs :: F2); [apply Permutation_sym, Permutation_middle|].
-        eapply Links_ext; [|exact HL]. intros i. unfold upd. destruct (N.eqb_spec i n) as [->|_]; [|reflexivity].
-        rewrite Hn. reflexivity.
-      * pose proof (roots_remove t det F1 (R n d cs) F2 Hroots HN Hm) as E. unfold roots in *. cbn [root map rid] in *.
-        rewrite Er in E. cbn [app] in E. rewrite E. reflexivity.
-      * intros i Hi. cbn [fresh]. apply Hb. rewrite ids_l_mid. rewrite ids_l_cons, ids_l_app in Hi. clear - Hi. in_norm. tauto.
+      destruct (root t) as [r|] eqn:Er.
+      { eexists _, _, (F1 ++ R n d cs :: F2). split; [reflexivity|]. split; [|intros _; apply nat_pres_refl].
+        cbn [ts TreeGraph.det]. split; [exact HL|]. split; [exact Hroots | exact Hb]. }
+      eexists _, _, (R n d cs :: F1 ++ F2). split; [reflexivity|]. cbn [ts TreeGraph.det]. split.
+      * split; [|split].
+        -- cbn [heap_of]. apply Links_perm with (F := F1 ++ R n d cs :: F2); [apply Permutation_sym, Permutation_middle|].
+           eapply Links_ext; [|exact HL]. intros i. unfold upd. destruct (N.eqb_spec i n) as [->|_]; [|reflexivity].
+           rewrite Hn. reflexivity.
+        -- pose proof (roots_remove t det F1 (R n d cs) F2 Hroots HN Hm) as E. unfold roots in *. cbn [root map rid] in *.
+           rewrite Er in E. cbn [app] in E. rewrite E. reflexivity.
+        -- intros i Hi. cbn [fresh]. apply Hb. rewrite ids_l_mid. rewrite ids_l_cons, ids_l_app in Hi. clear - Hi. in_norm. tauto.
+      * intros _ H. rewrite nat_app in H. unfold no_adjacent_text in *. cbn [forallb] in *.
+        apply andb_prop in H as [H1 H]. apply andb_prop in H as [H2 H3]. rewrite H2. cbn [andb].
+        rewrite forallb_app', H1, H3. reflexivity.
   - (* destruction of a detached sub-tree *)
-    destruct (mem n det) eqn:Hm; [|exact Hsame]. apply mem_in in Hm.
+    destruct (mem n det) eqn:Hm; [|apply Hsame]. apply mem_in in Hm.
     pose proof (inv_sizes _ _ _ HI) as [_ Hsz2]. destruct HI as (HL & Hroots & Hb).
     destruct (split_by_rid F n) as (F1 & tn & F2 & -> & Hrid); [rewrite Hroots; apply det_in_roots; exact Hm|]. subst n.
     destruct (destroy_forest (2 * S (fuel_of t) + 2) (heap_of t) F1 tn F2 HL) as (h' & Hrun & HL' & E).
     { specialize (Hsz2 tn (in_elt _ _ _)). unfold fuel_of. lia. }
-    rewrite Hrun. cbn [bind fst]. eexists _, _. split; [reflexivity|]. apply CLinks_Inv. exists (F1 ++ F2). cbn [ts TreeGraph.det].
-    split; [exact HL'|]. split.
-    + cbn [root with_heap]. destruct HL as (_ & HN & _). exact (roots_remove t det F1 tn F2 Hroots HN Hm).
-    + intros i Hi. cbn [fresh with_heap]. apply Hb. rewrite ids_l_mid. rewrite ids_l_app in Hi. clear - Hi. in_norm. tauto.
+    rewrite Hrun. cbn [bind fst]. eexists _, _, (F1 ++ F2). split; [reflexivity|]. cbn [ts TreeGraph.det]. split.
+    + split; [exact HL'|]. split.
+      * cbn [root with_heap]. destruct HL as (_ & HN & _). exact (roots_remove t det F1 tn F2 Hroots HN Hm).
+      * intros i Hi. cbn [fresh with_heap]. apply Hb. rewrite ids_l_mid. rewrite ids_l_app in Hi. clear - Hi. in_norm. tauto.
+    + intros _ H. rewrite nat_app in *. unfold no_adjacent_text in *. cbn [forallb] in H.
+      apply andb_prop in H as [H1 H]. apply andb_prop in H as [_ H3]. rewrite H1, H3. reflexivity.
+Qed.
+
+Theorem exec_links l c o : CLinks c -> exists c' b, exec l c o = TOk (c', b) /\ CLinks c'.
+Proof.
+  intros HC. apply CLinks_Inv in HC as (F & HI). destruct (exec_inv l c o F HI) as (c' & b & F' & Hrun & HI' & _).
+  exists c', b. split; [exact Hrun|]. apply CLinks_Inv. exists F'. exact HI'.
+Qed.
+
+Theorem init_links : CLinks init_state.
+Proof.
+  exists []. split; [|split; [reflexivity | intros i []]].
+  split; [constructor|]. split; [constructor|]. split; [|reflexivity]. intros i H. exfalso. apply H. reflexivity.
+Qed.
+
+Theorem run_links l : forall ops c, CLinks c -> exists c', run l c ops = TOk c' /\ CLinks c'.
+Proof.
+  induction ops as [|o ops IH]; intros c HC; [exists c; split; [reflexivity | exact HC]|].
+  destruct (exec_links l c o HC) as (c1 & b & Hrun & HC1). cbn [run]. rewrite Hrun. cbn [bind fst]. apply IH. exact HC1.
+Qed.
+
+(* ------------------------------------------------------------------ *)
+(* destroying everything releases every node exactly once               *)
+
+Lemma destroy_detached_spec fuel Froot : forall Fdet h,
+  Links h (Froot ++ Fdet) -> (forall tn, In tn Fdet -> (2 * size tn <= fuel)%nat) ->
+  exists h' rel, destroy_detached fuel h (map rid Fdet) = TOk (h', rel) /\ Links h' Froot /\
+                 Permutation rel (ids_l Fdet).
+Proof.
+  induction Fdet as [|tn Fdet IH]; intros h HL Hsz.
+  - exists h, []. rewrite app_nil_r in HL. split; [reflexivity|]. split; [exact HL | constructor].
+  - destruct (destroy_forest fuel h Froot tn Fdet HL) as (h1 & Hrun & HL1 & _); [apply Hsz; simpl; auto|].
+    destruct (IH h1 HL1) as (h2 & rel2 & Hrun2 & HL2 & P2); [intros; apply Hsz; simpl; auto|].
+    exists h2, (rev (postorder tn) ++ rel2). cbn [map destroy_detached]. rewrite Hrun. cbn [bind fst snd]. rewrite Hrun2. cbn [bind fst snd].
+    split; [reflexivity|]. split; [exact HL2|]. rewrite ids_l_cons. apply Permutation_app; [|exact P2].
+    rewrite <- Permutation_rev. apply postorder_perm.
+Qed.
+
+Theorem finish_spec c : CLinks c ->
+  exists h' rel F, finish c = TOk (h', rel) /\ Links (heap_of (ts c)) F /\ map rid F = roots_of c /\
+                   Permutation rel (ids_l F) /\ NoDup rel /\ (forall i, h' i = None).
+Proof.
+  intros HC. apply CLinks_Inv in HC as (F & HI). pose proof (inv_sizes _ _ _ HI) as [_ Hsz].
+  destruct HI as (HL & Hroots & Hb). unfold roots in Hroots.
+  apply map_eq_app in Hroots as (Fr & Fd & -> & Er & Ed).
+  assert (Hfu : forall tn, In tn (Fr ++ Fd) -> (2 * size tn <= 2 * fuel_of (ts c) + 2)%nat).
+  { intros tn Hin. specialize (Hsz tn Hin). unfold fuel_of. lia. }
+  unfold finish. rewrite <- Ed.
+  destruct (destroy_detached_spec (2 * fuel_of (ts c) + 2) Fr Fd (heap_of (ts c)) HL) as (h1 & rel1 & Hrun1 & HL1 & P1);
+    [intros; apply Hfu, in_or_app; auto|].
+  rewrite Hrun1. cbn [bind fst snd]. unfold tree_destroy. cbn [root heap_of].
+  assert (HND : NoDup (ids_l (Fr ++ Fd))) by (destruct HL as (_ & H & _); exact H).
+  destruct (root (ts c)) as [r|] eqn:Eroot.
+  - destruct Fr as [|tr [|? ?]]; try discriminate. cbn [map] in Er. injection Er as Er. subst r.
+    destruct (destroy_forest (2 * fuel_of (ts c) + 2) h1 [] tr [] HL1) as (h2 & Hrun2 & HL2 & _); [apply Hfu; simpl; auto|].
+    rewrite Hrun2. cbn [bind fst snd]. exists h2, (rel1 ++ rev (postorder tr)), ([tr] ++ Fd).
+    split; [reflexivity|]. split; [exact HL|]. split; [unfold roots_of; rewrite Eroot, map_app, Ed; reflexivity|].
+    assert (P : Permutation (rel1 ++ rev (postorder tr)) (ids_l ([tr] ++ Fd))).
+    { rewrite ids_l_app, ids_l_single. rewrite Permutation_app_comm. apply Permutation_app; [|exact P1].
+      rewrite <- Permutation_rev. apply postorder_perm. }
+    split; [exact P|]. split; [eapply Permutation_NoDup; [symmetry; exact P | exact HND]|].
+    intros i. destruct HL2 as (_ & _ & HCv & _). destruct (h2 i) eqn:E; [|reflexivity]. exfalso.
+    apply (HCv i). rewrite E. discriminate.
+  - destruct Fr as [|? ?]; try discriminate. cbn [bind fst snd]. exists h1, (rel1 ++ []), ([] ++ Fd).
+    split; [reflexivity|]. split; [exact HL|]. split; [unfold roots_of; rewrite Eroot, map_app, Ed; reflexivity|].
+    rewrite app_nil_r. cbn [app] in *. split; [exact P1|]. split; [eapply Permutation_NoDup; [symmetry; exact P1 | exact HND]|].
+    intros i. destruct HL1 as (_ & _ & HCv & _). destruct (h1 i) eqn:E; [|reflexivity]. exfalso.
+    apply (HCv i). rewrite E. discriminate.
 Qed.
